@@ -1912,3 +1912,7 @@ def m_value_try_into(ex, a, m):
     cands = [f for n, f in ex.prog.fns.items() if n.endswith('>::try_from') and f.params and f.locals[f.params[0]].replace('serde_json::', '') == want]
     if len(cands) != 1: return NotImplemented
     return ex.run_fn(cands[0], [a[0]])
+@model_rx(r'^<.* as Clone>::clone$')
+def m_clone_any(ex, a, m):
+    """structural Clone for std types without a dedicated model (RefCell, Cell, tuples, ...): fields are cloned recursively, Rc/refs are shared"""
+    return clone_value(ex, a[0].cell.v if isinstance(a[0], Ptr) else a[0])
